@@ -232,6 +232,37 @@ def check_db(db, nodes, res, case):
                                 id=x, level=level, observed=sorted(got), expected=sorted(inv))
 
 
+def check_pending(db, nodes, res, case):
+    """several children()/parents() results requested BEFORE any of them is iterated (kids, folks = db.children(x),
+    db.parents(y); a dict of pending iterators; zip of two): each still yields the relatives of ITS id"""
+    stored, lvl1, lvl2 = graph_oracle(nodes)
+    ids = sorted(stored)
+    if len(ids) < 2:
+        return
+    def inv(x):
+        return {p for p in stored if x in (lvl1.get(p, set()) | lvl2.get(p, set()))}
+    asks = []
+    for i, x in enumerate(ids[:6]):
+        if i % 2 == 0:
+            asks.append(("children", x, (lvl1.get(x, set()) & stored) | lvl2.get(x, set())))
+        else:
+            asks.append(("parents", x, inv(x)))
+    try:
+        pending = [(kind, x, want, getattr(db, kind)(x)) for kind, x, want in asks]      # nothing iterated yet
+        results = [(kind, x, want, [f.id for f in it]) for kind, x, want, it in reversed(pending)]
+    except Exception as ex:
+        common.fail(res, case, "children_raised", "pending children()/parents() iterators raised %r" % ex,
+                    error=dbside.err_name(ex), observed=repr(ex))
+        return
+    res.evaluations += 1
+    for kind, x, want, got in results:
+        if set(got) != want or len(got) != len(set(got)):
+            common.fail(res, case, "pending_iterators_mixed_up",
+                        "%s(%r), requested together with other children()/parents() results before any of them was iterated, "
+                        "does not yield the relatives of %r" % (kind, x, x), id=x, observed=sorted(got), expected=sorted(want))
+            return
+
+
 def check_order(case, rels, other_rels, res):
     """the relation set of the lines in this order against that of the same lines in the order given by the ranks"""
     if rels != other_rels:
@@ -385,6 +416,8 @@ def judge(ctx, case):
         db2, rep2 = import_lines(ctx, other, cfg, "go.gff3")
         if db2 is not None:
             check_order(case, sorted(dbside.rels_of(db)), sorted(dbside.rels_of(db2)), res)
+    elif sc == "pending_iterators":
+        check_pending(db, nodes, res, case)
     elif sc == "children_args":
         check_children_args(case, db, nodes, res)
     elif sc == "iter_by_parent_childs":
@@ -457,6 +490,8 @@ def run(ctx):
                                     parallel=["records", "rank"]), rels, first_rel, res)
             if oi < 3 or oi == len(orders) - 1:
                 check_db(db, onodes, res, mk_case("import", lines, onodes, permutation=oi, input_form=form))
+            if oi == 0:
+                check_pending(db, onodes, res, mk_case("pending_iterators", lines, onodes))
             if oi == 0:
                 if lvl2:
                     res.nontriv(tuple(base_lines))
